@@ -1,6 +1,7 @@
 package sym
 
 import (
+	"sync"
 	"bufio"
 	"fmt"
 	"io"
@@ -38,6 +39,18 @@ type Solver struct {
 	pending strings.Builder
 }
 
+// solverProcs: every solver process started by this run (killed when the run is interrupted, so that
+// a timed-out check does not leave solvers behind that keep the cores busy).
+var solverProcs sync.Map
+
+// KillAllSolvers terminates every solver process this run has started.
+func KillAllSolvers() {
+	solverProcs.Range(func(k, v any) bool {
+		v.(*os.Process).Kill()
+		return true
+	})
+}
+
 // SolverKind selects the back end: "z3-new" (5.1.0), "z3" (4.8.12), "cvc5".
 func NewSolver(kind string, timeoutMs int, logPath string) (*Solver, error) {
 	var cmd *exec.Cmd
@@ -63,6 +76,7 @@ func NewSolver(kind string, timeoutMs int, logPath string) (*Solver, error) {
 	if err := cmd.Start(); err != nil {
 		return nil, err
 	}
+	solverProcs.Store(cmd.Process.Pid, cmd.Process)
 	s := &Solver{Name: kind, cmd: cmd, in: in, out: bufio.NewReaderSize(outp, 1<<16), timeout: timeoutMs}
 	s.defined = []map[int64]bool{{}}
 	if logPath != "" {
